@@ -36,6 +36,11 @@ def lines(ctx):
             for sv in (0, 1, 3):
                 out.append(R.run_line(sv, 0, bytes([0x00, 0x63, op, 0x68, 0x51]), (), z=z))
                 out.append(R.run_line(sv, R.STD, bytes([0x51, 0x63, 0x67, op, 0x68, 0x51]), (), z=z))
+    # OP_CAT: the result is a stack element (at most 520 bytes)
+    for (a, b) in ((260, 260), (260, 261), (520, 0), (0, 520), (519, 1), (519, 2), (1, 520), (300, 300), (520, 520)):
+        for sv in (0, 1, 3):
+            out.append(R.run_line(sv, 0, bytes([0x7e, 0x82]), (b"\x61" * a, b"\x62" * b), z=1))
+    out.append(R.run_line(0, 0, bytes([0x51]) + bytes([0x76, 0x7e]) * 12, (), z=1))
     # results fed into further arithmetic
     for _ in range(400 if ctx.tier == "quick" else 20000):
         op = rnd.choice(R.DISABLED)
